@@ -209,6 +209,10 @@ func MapToIndexAction() RewriteAction {
 		newSecondArg := option.Args[0]
 		newSecondArg.Type = option.Args[0].Type.Map.ValueType
 		newSecondArg.Name = tools.Singularize(option.Args[0].Name)
+		if newSecondArg.Name == newFirstArg.Name {
+			// a map called `keys` or `key`: the value can't be called like the key
+			newSecondArg.Name = "value"
+		}
 
 		// Update the assignment to do an index assignment instead of a map assignment: the one
 		// that assigns the argument (other assignments can come first, constants for instance)
